@@ -41,6 +41,9 @@ def run(check: Check, repo: Repo, tier: str) -> None:
     from rules import exec_rules as X
 
     X.memo_discovery(check, repo, [repo.mod("validation.validation_context"), repo.mod("utilities.type_info")])
+    # memos kept by the rules themselves, in their visitor handlers
+    X.memo_discovery(check, repo, [m for m in repo.package_modules("validation") if m.name.startswith("graphql.validation.rules.") and ".custom" not in m.name],
+                     only=lambda f: getattr(f, "name", "").startswith(("enter_", "leave_")))
     G.emptiness_guard(check, list(repo.mod("type.validate").functions()))
     from rules import sdl_rules as D
 
